@@ -77,6 +77,30 @@ def _rewrite(text, block_index, fn):
     return "\n\n".join(parts)
 
 
+# A known finding is a behaviour of the code *as modelled* (each is a _refuted theorem about Model/Dedup.v): when the
+# real call no longer does what the model says for this very input, no predicate holds and the failure is reported.
+_AGREE = {}
+
+
+def _key(c):
+    return (c.get("text"), c.get("tol"), repr(c.get("pre", [])))
+
+
+def note_agreement(c, ok):
+    if len(_AGREE) > 50000:
+        _AGREE.clear()
+    _AGREE[_key(c)] = bool(ok)
+
+
+def model_agrees(c):
+    k = _key(c)
+    if k not in _AGREE:
+        import props.C18 as C18
+        r = C18.run_case(c, want_text=False)
+        note_agreement(c, "skip" in r or C18.model_agrees(r))
+    return _AGREE[k]
+
+
 def _classes(c):
     import props.C18 as C18
     return C18.failure_kinds(c)
@@ -98,6 +122,8 @@ def C18_bc_ignored(case, params):
     """two surfaces with the same mnemonic (one of the three classes that look for duplicates) and different
     boundary-condition markers; gone when every marker is dropped"""
     c = case.get("case")
+    if c and not model_agrees(c):
+        return False
     if not c or case.get("kind") not in BC_KINDS:
         return False
     ss = surfaces_of(c["text"])
@@ -119,6 +145,8 @@ def C18_periodic_ignored(case, params):
     """a periodic surface (negative pointer on the card, or periodic_surface assigned before the call) next to a
     surface of the same mnemonic, or pointed to by one; gone when no surface is periodic"""
     c = case.get("case")
+    if c and not model_agrees(c):
+        return False
     if not c:
         return False
     if case.get("kind") == "exception:BrokenObjectLinkError":
@@ -189,6 +217,8 @@ def C18_rotation_ignored(case, params):
     called on the one without does not look at the other's rotation (and the asymmetry lets a survivor be removed
     later); gone when the absent rotations are spelled as the identity matrix"""
     c = case.get("case")
+    if c and not model_agrees(c):
+        return False
     if not c or case.get("kind") not in ROT_KINDS:
         return False
     if case["kind"] in SECOND_KINDS:
@@ -210,6 +240,8 @@ def C18_rotation_index_error(case, params):
     """two transforms whose rotation matrices have different non-zero lengths (MCNP accepts 3, 5, 6 or 9 entries);
     gone when the shorter ones are padded to nine entries"""
     c = case.get("case")
+    if c and not model_agrees(c):
+        return False
     if not c or case.get("kind") not in IDX_KINDS:
         return False
     trs = transforms_of(c["text"])
@@ -240,6 +272,8 @@ def C18_pointers_rerun(case, params):
     or the data block holds a VOL / U / LAT / FILL card: the call resolves the pointers again from the numbers
     remembered from the read and merges the data-block cards a second time; gone without those edits / cards"""
     c = case.get("case")
+    if c and not model_agrees(c):
+        return False
     if not c or case.get("kind") not in RERUN_KINDS:
         return False
     pre = c.get("pre", [])
@@ -260,6 +294,8 @@ def C18_second_call(case, params):
     """remove_duplicate_surfaces had already been called on the problem (cell.surfaces was emptied by it, so the
     cells are not re-pointed any more); gone without the earlier call"""
     c = case.get("case")
+    if c and not model_agrees(c):
+        return False
     if not c or case.get("kind") not in SECOND_KINDS:
         return False
     return _dangling_explained(c, case["kind"], "call")
